@@ -68,29 +68,29 @@ type world struct {
 	si  int
 
 	W, KG, burst, nSplits, nKeys, tail int
-	splits                              [][]cluster.Record
-	total                               int // records in all splits
-	dir                                 string
-	c                                   *cluster.Cluster
-	fed                                 int // records permitted so far (global sequence)
-	givenIdx                            int // log index up to which givens were checked
-	pendingID                           uint64
-	srAcks                              []*gate.Arrival
-	opAcks                              map[int]*gate.Arrival
-	writes                              map[uint64]*gate.Arrival
-	retains                             []*gate.Arrival
-	read                                *gate.Arrival
-	started                             int // checkpoints the model says were started
-	startSeen                           int // StartCheckpoint calls observed / W
-	published                           []uint64
-	spID                                uint64
-	spURI                               string
-	spListing                           map[string]int64
-	spFailed                            bool
-	lastErr                             string
-	restoring                           bool
-	stop                                bool // behaviour ended early (expected failure of the artifact, drift)
-	failed                              bool // a violation was reported
+	splits                             [][]cluster.Record
+	total                              int // records in all splits
+	dir                                string
+	c                                  *cluster.Cluster
+	fed                                int // records permitted so far (global sequence)
+	givenIdx                           int // log index up to which givens were checked
+	pendingID                          uint64
+	srAcks                             []*gate.Arrival
+	opAcks                             map[int]*gate.Arrival
+	writes                             map[uint64]*gate.Arrival
+	retains                            []*gate.Arrival
+	read                               *gate.Arrival
+	started                            int // checkpoints the model says were started
+	startSeen                          int // StartCheckpoint calls observed / W
+	published                          []uint64
+	spID                               uint64
+	spURI                              string
+	spListing                          map[string]int64
+	spFailed                           bool
+	lastErr                            string
+	restoring                          bool
+	stop                               bool // behaviour ended early (expected failure of the artifact, drift)
+	failed                             bool // a violation was reported
 }
 
 var tuneOn atomic.Bool
@@ -286,7 +286,7 @@ func replay(bi int, beh []mbt.Step, in *mbt.Input, res *mbt.Result) {
 			break
 		}
 	}
-	if !w.failed && !w.stop && w.spURI != "" && w.c != nil {
+	if !w.failed && !w.stop && w.spURI != "" && w.c != nil && !w.restoring {
 		// behaviour ended before Wipe: the directory must still be closed and unchanged
 		w.checkClosed()
 		w.checkSavepointUnchanged()
@@ -495,6 +495,9 @@ func (w *world) stepSp(st mbt.Step) {
 				map[string]any{"id": id, "started": 0}, map[string]any{"id": r.id, "started": n})
 		}
 		w.res.Count("sp_folded", 1)
+		if id > 1 {
+			w.res.Count("sp_folded_into_later_checkpoint", 1)
+		}
 		return
 	}
 	if r.id != id {
@@ -890,7 +893,13 @@ func (w *world) checkClosed() {
 		return
 	}
 	spDir := filepath.Dir(w.spURI)
+	// HandleGetSavepointURI succeeds as soon as `cp` has created job.savepoint (LocalDirectory.Copy is not atomic):
+	// give the copy a moment to finish before judging the file's content
 	ck, err := cluster.ReadJobCheckpointFile(w.spURI)
+	for i := 0; i < 200 && (err != nil || ck.Id != w.spID); i++ {
+		time.Sleep(5 * time.Millisecond)
+		ck, err = cluster.ReadJobCheckpointFile(w.spURI)
+	}
 	if err != nil {
 		w.violate("the savepoint's job file cannot be read: "+err.Error(), nil, nil)
 		return
@@ -1238,7 +1247,26 @@ func (w *world) tickAndCheck(c *cluster.Cluster, id uint64, cursors map[int]int,
 		w.violate(fmt.Sprintf("the state of the job started from savepoint %d %s is not the state of checkpoint %d (+ the records since): %s", w.spID, when, w.spID, d), nil, d)
 		return false
 	}
-	c.WaitRetention(wait)
+	// let the retention round retained=[id] reach every operator before anything else happens: a notification
+	// that arrives after the next DKV checkpoint was taken drops that checkpoint (DESIGN 7 #28, not this
+	// property). The kit's WaitRetention does not expect a round after the first publication of a job started
+	// from a savepoint, so the round is awaited here by its observations.
+	want := fmt.Sprint([]uint64{ck.Id})
+	n := 0
+	deadline := time.Now().Add(wait)
+	for n < c.Options().Workers {
+		n = 0
+		for _, o := range c.Log(mark) {
+			if o.Kind == "op.retained" && o.Text == want {
+				n++
+			}
+		}
+		if time.Now().After(deadline) {
+			w.errorf("restored cluster: retention round %s reached %d of %d operators", want, n, c.Options().Workers)
+			return false
+		}
+		time.Sleep(300 * time.Microsecond)
+	}
 	return true
 }
 
